@@ -29,6 +29,6 @@ func ReadBytesShort(reader io.Reader) ([]byte, int64, error) {
 		return nil, 1, nil
 	}
 	challenge := make([]byte, length)
-	dn, err := reader.Read(challenge)
+	dn, err := io.ReadFull(reader, challenge)
 	return challenge, 1 + int64(dn), err
 }
